@@ -169,6 +169,7 @@ type world struct {
 	foreign   map[uint64]*actor.Context // id -> context whose mailbox records deliveries
 	delivered []string                  // "id:value" for deliveries to foreign mailboxes / "root:value"
 	futPath   string
+	panicked  string
 }
 
 const askerPath = "/asker"
@@ -333,6 +334,8 @@ func labelCode(l string) uint64 {
 		return 19
 	case "PipeTo:recv:f.done":
 		return 20
+	case "PipeTo:append(f.forwarders, forwarders...).Unique":
+		return 21
 	}
 	return 98
 }
@@ -366,7 +369,7 @@ func (w *world) snapshot() snap {
 	s.visible = true
 	var e error
 	var m vivid.Message
-	s.closed, e, m, s.nfwd, s.done, _ = future.XVState(w.fut)
+	s.closed, e, m, s.nfwd, s.done = future.XVState(w.fut)
 	s.r = mkRes(m, e)
 	kind, _, fut := actor.XVLookup(w.sys, w.futPath)
 	s.regCtx = kind == 2 && fut == w.fut
@@ -406,7 +409,16 @@ func execute(cfg config, choose func([]int, int) int) result {
 		panic("tid mismatch")
 	}
 	for i, g := range cfg.progs {
-		if got := s.Spawn("env", w.body(i+1, g)); got != i+1 {
+		body := w.body(i+1, g)
+		guarded := func() {
+			defer func() {
+				if r := recover(); r != nil {
+					w.panicked = fmt.Sprint(r)
+				}
+			}()
+			body()
+		}
+		if got := s.Spawn("env", guarded); got != i+1 {
 			panic("tid mismatch")
 		}
 	}
@@ -513,6 +525,10 @@ func (h *H) monitors(cfg config, r result, in lib.T) {
 	w := r.w
 	o := h.o
 	fin := r.final
+	if w.panicked != "" {
+		o.Monitor("panic", in, "a goroutine using the future panicked: "+w.panicked)
+		return
+	}
 	if r.overrun {
 		o.Monitor("no-termination", in, "still taking steps after the bound: "+r.stuck)
 		return
@@ -782,18 +798,26 @@ func main() {
 	}
 	bound, perCfg := 2, 150
 	if thorough {
-		bound, perCfg = 3, 8000
+		bound, perCfg = 3, 60000
 	}
 	total := 0
 	for _, c := range fixed {
 		total += h.explore(c, bound, perCfg)
+	}
+	if thorough {
+		// one more preemption on the smaller populations
+		for _, c := range fixed {
+			if len(c.progs) <= 3 {
+				total += h.explore(c, 4, 30000)
+			}
+		}
 	}
 	o.Info["dfs_configs"] = len(fixed)
 	o.Info["dfs_preemption_bound"] = bound
 	o.Info["dfs_runs"] = total
 	n := 600
 	if thorough {
-		n = 20000
+		n = 150000
 	}
 	if f.N > 0 {
 		n = f.N
